@@ -204,7 +204,9 @@ impl<N, C> Topology<N, C> {
         });
 
         let mut mapping = FxHashMap::with_hasher(FxBuildHasher::default());
-        while let Some(cur) = queue.pop() {
+        while !queue.is_empty() {
+            // breadth first, so that the first hop of a shortest path is recorded
+            let cur = queue.remove(0);
             if visited.contains(&cur.idx) {
                 continue;
             }
